@@ -171,6 +171,8 @@ impl Prop for C09 {
             r.verbosity = *rng.pick(&[0u8, 0, 0, 1, 2]);
             r.threads = pick_threads(rng);
             r.plan = benign_plan(rng);
+            fit_chunks(&mut r.plan, chain_bytes(&scn.chain), 150_000);
+            fit_writes(&mut r.plan, chain_bytes(&scn.chain) * 3, 300_000);
             let t = nb as u64 - 1;
             if g.is_none() || rng.chance(1, 2) || long {
                 r.start = Some(rng.range(1, t));
